@@ -83,9 +83,13 @@ def run_checked(ctx, cfg, segs, kind):
         if r["nlines"] > cfg.max_headers or r["maxline"] > lim + 1:
             ctx.violation("C10/retained/lines-exceed-limits", case, f"_lines: {r['nlines']} lines, longest {r['maxline']}")
         if r["cstate"] in ("PARSE_CHUNKED_SIZE", "PARSE_TRAILERS", "PARSE_CHUNKED_CHUNK_EOF"):
-            # the early check runs at the *next* call: one read may leave up to one read's worth;
-            # so check the tail as it was accepted by the previous call's check instead
-            pass
+            # the check on an unfinished chunk-size / trailer line runs at the *next* call, so what is kept after a
+            # call is at most what that check lets through (limit, + a CR that may be half a terminator) plus this read
+            cl = cfg.max_field if r["cstate"] == "PARSE_TRAILERS" else cfg.max_line
+            if r["ctail"] > cl + 1 + len(s):
+                ctx.violation(f"C10/retained/chunk-tail-exceeds-limit/{r['cstate'][6:].lower()}", case,
+                              f"_chunk_tail holds {r['ctail']} bytes of an unfinished line in {r['cstate']} after a {len(s)}-byte read, limit in force {cl}")
+                return "retained"
         if r["ntrailers"] > cfg.max_headers:
             ctx.violation("C10/retained/trailers-exceed-limit", case, f"{r['ntrailers']} trailer lines kept")
     try:
@@ -105,6 +109,29 @@ def oracle_body_open(ctx, cfg, data, segs, o):
         ctx.violation(f"C10/hang/raised-but-delivered-body-left-open/{'resp' if cfg.response else 'req'}",
                       {"cfg": cfg.spec(), "stream": hx(data), "cuts": [len(s) for s in segs], "bodyopen": True},
                       f"feed_data raised {o['err']} but the body stream of the message in progress got neither EOF nor an exception")
+
+
+def dribbles(rng):
+    """(cfg, stream, where): a valid prefix followed by a line of 4x the limit that is never terminated"""
+    out = []
+    ml, mf = rng.randint(16, 100), rng.randint(16, 100)
+    if rng.random() < 0.4:
+        mf = ml
+    big = 4 * max(ml, mf) + 40
+    fill = lambda n: bytes(rng.choice(b"abcxyz=09") for _ in range(n))
+    for response in (False, True):
+        for lax in ((False, True) if response else (False,)):
+            cfg = lambda: H.Cfg(max_line=ml, max_field=mf, response=response, lax=lax)
+            start = b"HTTP/1.1 200 OK\r\n" if response else b"POST /p HTTP/1.1\r\nHost: h\r\n"
+            te = start + b"Transfer-Encoding: chunked\r\n\r\n"
+            out.append((cfg(), (b"HTTP/1.1 200 " if response else b"GET /") + fill(big), "start-line"))
+            out.append((cfg(), start + b"X-F: " + fill(big), "field-line"))
+            out.append((cfg(), te + b"1;" + fill(big), "chunk-size-line"))
+            out.append((cfg(), te + fill(1).hex().encode()[:1] * big, "chunk-size-digits"))
+            out.append((cfg(), te + b"3\r\nabc\r\n2;x=" + fill(big), "chunk-size-line-2"))
+            out.append((cfg(), te + b"3\r\nabc\r\n0\r\nX-T: " + fill(big), "trailer-line"))
+            out.append((cfg(), te + b"0\r\n" + fill(big), "trailer-line-first"))
+    return out
 
 
 def limit_probes(rng):
@@ -210,6 +237,17 @@ def _check(ctx):
                     ctx.violation(f"C10/limit-too-strict/{pos}", case, f"{pos} of length limit{delta:+d} rejected ({o['err']})")
                 run_checked(ctx, cfg, segs, pos)
             ctx.hit(f"probe:{pos}:{delta:+d}")
+    # lines that never end, dribbled in small reads: every syntactic position must be cut off at its limit
+    for _ in range(6 if ctx.quick else 80):
+        for cfg, data, where in dribbles(rng):
+            k = rng.choice([1, 2, 3, 5, 7, 11])
+            segs = [data[i:i + k] for i in range(0, len(data), k)]
+            err = run_checked(ctx, cfg, segs, "dribble:" + where)
+            ctx.case((cfg.key(), data, k), nontrivial=True)
+            ctx.hit(f"dribble:{where}:{err}")
+            if err is None:
+                ctx.violation(f"C10/limit-not-enforced/unterminated-{where}", {"cfg": cfg.spec(), "stream": hx(data), "cuts": [len(x) for x in segs]},
+                              f"an unterminated {where} of {len(data)} bytes was accepted read after read (limits {cfg.max_line}/{cfg.max_field})")
     # mutations + raw bytes
     n = 1500 if ctx.quick else 40000
     for i in range(n):
